@@ -10,7 +10,7 @@ open Revm.Spec.Ether Revm.Proofs.Ether
 
 /-- a quiet stage preserves the ledger invariant -/
 theorem Pres.of_quiet {L B} {w w' : World} (q : Quiet w w') : Pres L B w w' :=
-  ⟨q.kle, fun _ h => by unfold EI at *; rw [q.db, q.same.absB]; exact h⟩
+  ⟨q.kle, fun _ h => by unfold EI at *; rw [q.db, q.same.absB]; exact h, by rw [q.db]⟩
 
 /-- rewriting a present account without changing its balance -/
 theorem quiet_setAcct {w : World} {a : Nat} {acc acc' : Journal.Acct} (hs : w.js.state a = some acc)
